@@ -232,7 +232,7 @@ End Params.
 Section Calibration.
   Variable Rec Field : Type.
   Variable set : Rec -> Field -> Q -> Rec * bool.
-  Variable initialisation : Rec -> Rec.
+  Variable initialisation : Rec -> outcome Rec.   (* the CHECKED initialisation: RaisesZeroDivisionError where Python divides by zero *)
   Variable price : Rec -> Q.            (* COS price of the calibration product as a function of the parameter object *)
   Variable dflt : Rec.
 
@@ -246,9 +246,15 @@ Section Calibration.
     end.
   Definition deepcopy (h : Heap) (p : nat) : Heap * nat := (h ++ [load h p], length h).
 
+  (* copy.<f> = x (ValueError of the setter -> None); copy.initialisation() (ZeroDivisionError -> None); price - market *)
+  Definition assign_init (r : Rec) (f : Field) (x : Q) : option Rec :=
+    let '(r', ok) := set r f x in
+    if ok then match initialisation r' with Built r'' => Some r'' | _ => None end else None.
   Definition calibration_fun (q : nat) (f : Field) (market : Q) (st : Heap) (x : Q) : option (Heap * Q) :=
-    let '(r', ok) := set (load st q) f x in
-    if ok then let r'' := initialisation r' in Some (store st q r'', price r'' - market) else None.
+    match assign_init (load st q) f x with
+    | Some r'' => Some (store st q r'', price r'' - market)
+    | None => None
+    end.
   Fixpoint run_trials (q : nat) (f : Field) (market : Q) (st : Heap) (xs : list Q) : option Heap :=
     match xs with
     | [] => Some st
@@ -264,12 +270,11 @@ Section Calibration.
     match calibrate_model_parameter false h p f market xs with
     | None => None
     | Some h1 => let '(h2, q2) := deepcopy h1 p in
-                 let '(r', ok) := set (load h2 q2) f x in
-                 if ok then Some (store h2 q2 (initialisation r'), q2) else None
+                 match assign_init (load h2 q2) f x with
+                 | Some r'' => Some (store h2 q2 r'', q2)
+                 | None => None
+                 end
     end.
-
-  (* objective as a function of the trial value alone (shown history-independent per class: <cls>_trial_absorbs) *)
-  Definition objective (r0 : Rec) (f : Field) (market : Q) (x : Q) : Q := price (initialisation (fst (set r0 f x))) - market.
 End Calibration.
 
 (* what scipy.optimize.brentq promises when it RETURNS x for an objective F on [a,b] (a bracketing method: the returned
